@@ -8,6 +8,8 @@ capitalists, several firms, money/deposit markets) are built with the implementa
 FinalEquations are handed to the kernel-evaluated checker, one balance target per real currency
 zone.  Oracle: the same balance evaluated on the implementation's solved series at every k >= 2.
 """
+import json
+
 import common
 import gen_common as G
 import gen_checks as GC
@@ -35,6 +37,109 @@ def make_targets(a, prog):
     return out
 
 
+# ---------------------------------------------------------------- booking-level correspondence (Flows.v)
+def gen_flow_case(rng):
+    curs = rng.sample(['CAD', 'USD', 'JPY'], rng.choice([1, 2, 2, 3]))
+    n_sec = rng.choice([2, 3])
+    ops = []
+    for _ in range(rng.randint(1, 8)):
+        a = (rng.randrange(len(curs)), rng.randrange(n_sec))
+        b = (rng.randrange(len(curs)), rng.randrange(n_sec))
+        if a == b:
+            continue
+        r = rng.random()
+        if r < 0.85:
+            ops.append(['flow', a, b, rng.choice(['G', 'H', 'G']), rng.random() < 0.5, rng.random() < 0.5])
+        else:
+            ops.append(['gold', a, 'GP%d' % len(ops)])
+    return {'curs': curs, 'n_sec': n_sec, 'ext_pos': rng.randint(0, len(curs)), 'ops': ops}
+
+
+def run_flow_impl(c):
+    from sfc_models.models import Model, Country
+    from sfc_models.sector import Sector
+    from sfc_models.external import ExternalSector
+    from common import coq_string
+    mod = Model()
+    secs = {}
+    ext = None
+    for i, cur in enumerate(c['curs']):
+        if i == c['ext_pos']:
+            ext = ExternalSector(mod)
+        cn = Country(mod, 'C' + cur, currency=cur)
+        for j in range(c['n_sec']):
+            s = Sector(cn, 'S%d' % j)
+            for v in ('G', 'H'):
+                s.AddVariable(v, '', '1.0')
+            secs[(i, j)] = s
+    if ext is None:
+        ext = ExternalSector(mod)
+    mod._GenerateFullSectorCodes()
+    model_ops = []
+    for op in c['ops']:
+        if op[0] == 'flow':
+            s, t = secs[tuple(op[1])], secs[tuple(op[2])]
+            mod.RegisterCashFlow(s, t, op[3], is_income_source=op[4], is_income_dest=op[5])
+            x = s.GetVariableName(op[3])
+            if op[1][0] == op[2][0]:
+                model_ops.append('Same %s %s %s' % (coq_string(s.FullCode), coq_string(t.FullCode), coq_string(x)))
+            else:
+                model_ops.append('Cross %s %s %s %s %s' % (coq_string(s.FullCode), coq_string(t.FullCode),
+                                                           coq_string(c['curs'][op[1][0]]), coq_string(c['curs'][op[2][0]]), coq_string(x)))
+    mod._GenerateRegisteredCashFlows()
+    for op in c['ops']:
+        if op[0] == 'gold':
+            s = secs[tuple(op[1])]
+            s.AddVariable(op[2], '', '1.0')
+            ext['GOLD'].SetGoldPurchases(s, op[2], 0.0)
+            model_ops.append('GoldBuy %s %s %s' % (coq_string(s.FullCode), coq_string(c['curs'][op[1][0]]), coq_string(s.GetVariableName(op[2]))))
+    expected = []
+
+    def qual(s, text):
+        return '*'.join(f if '__' in f else s.FullCode + '__' + f for f in text.split('*'))
+    for s in secs.values():
+        terms = [(int(t.Constant), qual(s, t.Term)) for t in s.EquationBlock['F'].TermList if not t.IsBlob and t.Term != 'LAG_F']
+        expected.append((s.FullCode, terms))
+    fx = ext['FX']
+    for cur in c['curs'] + ['NUMERAIRE']:
+        terms = [(int(t.Constant), t.Term) for t in fx.EquationBlock['NET_' + cur].TermList if not t.IsBlob]
+        expected.append(('EXT_FX__NET_' + cur, terms))
+    return model_ops, expected, {s.FullCode: c['curs'][k[0]] for k, s in secs.items()}
+
+
+def flow_oracle(c, expected, zone):
+    """Implementation only: per real currency zone the booked entries cancel under random rational
+    valuations (cross rates = quotient of rates)."""
+    from fractions import Fraction
+    import random as _r
+    rng = _r.Random(json.dumps(c, sort_keys=True))
+    val = {}
+
+    def value(name):
+        if name.startswith('EXT_XR__') and '_' in name[len('EXT_XR__'):]:
+            a_, b_ = name[len('EXT_XR__'):].split('_', 1)
+            return value('EXT_XR__' + a_) / value('EXT_XR__' + b_)
+        if name not in val:
+            val[name] = Fraction(rng.randint(1, 40), rng.randint(1, 9))
+        return val[name]
+    totals = {}
+    for key, terms in expected:
+        z = zone.get(key, key[len('EXT_FX__NET_'):] if key.startswith('EXT_FX__NET_') else None)
+        s = Fraction(0)
+        for coef, text in terms:
+            p = Fraction(coef)
+            for f in text.split('*'):
+                p *= value(f)
+            s += p
+        totals[z] = totals.get(z, Fraction(0)) + s
+    fails = []
+    for z, tot in totals.items():
+        if z != 'NUMERAIRE' and tot != 0:
+            fails.append({'key': 'flows:zone-entries-do-not-cancel', 'what': 'booked entries of zone %s sum to %s after %r' % (z, tot, c['ops']),
+                          'replay': {'kind': 'flows', 'case': c}})
+    return fails
+
+
 def run(ctx):
     out, metas = GC.run_targets(
         ctx, PID, make_targets, 60, 1500,
@@ -45,6 +150,24 @@ def run(ctx):
               'money and deposit markets with portfolio choice, gifts; one balance target per real currency zone; '
               'non-trivial = program built and emitted equations; distinct by full program'))
     out.proof = common.proof_status(FAMILY, PROPFILE)
+    # booking-level correspondence and oracle
+    from common import coq_string, coq_list, coq_Z
+    cases, cm = [], []
+    for _ in range(ctx.scale(250, 4000)):
+        c = gen_flow_case(ctx.rng)
+        model_ops, expected, zone = run_flow_impl(c)
+        out.failures.extend(flow_oracle(c, expected, zone))
+        exp = coq_list(['(%s, %s)' % (coq_string(k), coq_list(['(%s, %s)' % (coq_Z(a), coq_string(t)) for a, t in terms]))
+                        for k, terms in expected])
+        cases.append('flows_case %s %s' % (coq_list(model_ops), exp))
+        cm.append(c)
+    bad, errs = common.run_bool_cases(FAMILY, G.GEN_REQUIRES + ['From SFC.Gen Require Import Flows.'], cases, tag=PID + 'fl')
+    out.corr_errors.extend(errs)
+    for i in bad[:10]:
+        out.disagreements.append({'flow_case': cm[i], 'coq': cases[i][:400]})
+    out.extra['flow_sequences'] = len(cases)
+    out.evaluations += len(cases)
+    out.nontrivial += len(set(json.dumps(c, sort_keys=True) for c in cm if len(c['ops']) >= 2))
     out.trusted_base = [
         'Coq 8.16.1 kernel + vm_compute (checker evaluated on the emitted equations)',
         'axioms (Print Assumptions): Reals ClassicalDedekindReals.sig_forall_dec, sig_not_dec, '
@@ -61,4 +184,13 @@ def run(ctx):
 
 
 def replay(path):
+    obj = json.load(open(path))
+    r = obj.get('replay') or {}
+    if r.get('kind') == 'flows':
+        model_ops, expected, zone = run_flow_impl(r['case'])
+        fails = flow_oracle(r['case'], expected, zone)
+        for f in fails:
+            print('FAILS:', f['what'][:300])
+        print('replay: %s' % ('property violated' if fails else 'property holds on this input'))
+        return 1 if fails else 0
     return GC.replay_program(path, make_targets)
